@@ -702,6 +702,9 @@ class FunctionParser(BaseParser):
                     _ = _self
             if args and not _:
                 _, *args = args
+            elif _ is None and self.reserve_name in kwargs:
+                # the reserved first parameter can be passed by keyword like any other
+                _ = kwargs.pop(self.reserve_name)
         if parse_params:
             args, kwargs = self.parse_params(args, kwargs, context=context)
         if first_reserve:
